@@ -144,6 +144,8 @@ pub struct Model {
     pub live_handles: usize,
     /// order in which QoS>0 PUBLISH (false) and PUBREL (true) packets were first written
     pub sent_log: Vec<(usize, bool)>,
+    /// a panic whose message contains this text is a documented assertion, not a violation
+    pub exempt_panic: Option<&'static str>,
 }
 
 fn pat_matches(p: &ResPat, got: &str) -> bool {
@@ -188,6 +190,7 @@ impl Model {
             by_pid: std::collections::HashMap::new(),
             live_handles: 0,
             sent_log: vec![],
+            exempt_panic: None,
         }
     }
 
@@ -1126,10 +1129,15 @@ impl Model {
         let mut wire_dead = false;
         for o in obs {
             match o {
-                Ob::Panic { task, msg } => out.push(Mismatch {
-                    rule: "panic".into(),
-                    detail: format!("panic while polling {}: {}", task, msg),
-                }),
+                Ob::Panic { task, msg } => {
+                    if self.exempt_panic.map(|e| msg.contains(e)).unwrap_or(false) {
+                        continue;
+                    }
+                    out.push(Mismatch {
+                        rule: "panic".into(),
+                        detail: format!("panic while polling {}: {}", task, msg),
+                    })
+                }
                 Ob::WireErr(e) => {
                     if self.check_wire {
                         out.push(Mismatch {
